@@ -41,6 +41,7 @@ package cluster
 //@   ensures result.1 == nil <==> (validNode(node) && A(v.m, node) < 9223372036854775807)
 //@   ensures result.1 == nil ==> result.0.m != nil && fresh(result.0.m)
 //@   ensures result.1 == nil ==> forall k string :: A(result.0.m, k) == (k == node ? A(v.m, k) + 1 : A(v.m, k))
+//@   ensures result.1 == nil ==> forall k string :: k in result.0.m <==> (k in v.m || k == node)
 
 //@ func (VersionVector).Merge
 //@   ensures result.m != nil && fresh(result.m)
@@ -186,3 +187,199 @@ func lemmaIncrementStrictlyAfter(a VersionVector, node string) (ord VersionOrder
 //@ func lemmaCompactEqual
 //@   ensures result == VersionEqual
 func lemmaCompactEqual(a VersionVector) VersionOrder { return a.Compact().Compare(a) }
+
+// =============================================================================================
+// C17: cluster view merge
+// =============================================================================================
+
+//@ pure newer(a *NodeState, b *NodeState) bool =
+//@     b == nil || (a.Generation != b.Generation ? a.Generation > b.Generation :
+//@       ((a.ID == b.ID && a.LogicalClock != 0 && b.LogicalClock != 0) ? a.LogicalClock > b.LogicalClock : a.Timestamp > b.Timestamp))
+// strict lexicographic order on (generation, logical clock): "newer incarnation"
+//@ pure lexgt(a *NodeState, b *NodeState) bool =
+//@     a.Generation > b.Generation || (a.Generation == b.Generation && a.LogicalClock > b.LogicalClock)
+//@ pure samekey(a *NodeState, b *NodeState) bool = a.Generation == b.Generation && a.LogicalClock == b.LogicalClock
+
+//@ func (*NodeState).IsNewerThan
+//@   ensures result == newer(n, other)
+
+// on well-formed states of one id, IsNewerThan IS the strict lexicographic order
+//@ lemma newer_is_lex: forall a *NodeState, b *NodeState ::
+//@     a != nil && b != nil && a.ID == b.ID && a.LogicalClock != 0 && b.LogicalClock != 0 ==> (newer(a, b) <==> lexgt(a, b))
+//@ lemma lexgt_strict_order: forall a *NodeState, b *NodeState, c *NodeState ::
+//@     !lexgt(a, a) && (lexgt(a, b) && lexgt(b, c) ==> lexgt(a, c)) && (lexgt(a, b) || lexgt(b, a) || samekey(a, b))
+
+//@ func (*NodeState).Clone
+//@   nilreceiver
+//@   ensures n == nil ==> result == nil
+//@   ensures n != nil ==> result != nil && fresh(result) && result.ID == n.ID && result.Generation == n.Generation &&
+//@           result.LogicalClock == n.LogicalClock && result.Timestamp == n.Timestamp && result.Status == n.Status &&
+//@           result.Address == n.Address && result.ClusterName == n.ClusterName && result.SeqNo == n.SeqNo
+
+//@ pure inSlice(s []string, k string) bool = exists j mathint :: 0 <= j && j < len(s) && s[j] == k
+//@ pure effLimit(maxEntries mathint) mathint = maxEntries <= 0 ? 65535 : maxEntries
+
+//@ func (VersionVector).PruneWithMax
+//@   ensures result.m != nil && fresh(result.m)
+//@   ensures forall k string :: A(result.m, k) <= A(v.m, k) && (k in result.m ==> k in v.m)
+//@   ensures len(activeNodes) <= effLimit(maxEntries) ==> forall k string :: A(result.m, k) == (inSlice(activeNodes, k) ? A(v.m, k) : 0)
+//@ loop (VersionVector).PruneWithMax#1
+//@   invariant -1 <= rangeindex && rangeindex < len(activeNodes) && activeSet != nil && allocated(activeSet) && !allocated_old(activeSet)
+//@   invariant forall k string :: (k in activeSet <==> exists j mathint :: 0 <= j && j <= rangeindex && activeNodes[j] == k) && (k in activeSet ==> activeSet[k])
+//@ loop (VersionVector).PruneWithMax#2
+//@   invariant out.m != nil && allocated(out.m) && !allocated_old(out.m)
+//@   invariant forall k string :: (k in out.m <==> (seen(k) && activeSet[k])) && (k in out.m ==> out.m[k] == v.m[k])
+//@   invariant forall k string :: seen(k) ==> k in v.m
+
+//@ pure membersNonNil(v *ClusterView) bool = forall id string :: id in v.Members ==> v.Members[id] != nil
+
+//@ func (*ClusterView).recomputeCounts
+//@   modifies v.HealthyCount, v.UnhealthyCount, v.QuorumSize, v.VersionVector
+//@   ensures forall k string :: A(v.VersionVector.m, k) <= old(A(v.VersionVector.m, k)) && (k in v.VersionVector.m ==> old(k in v.VersionVector.m))
+//@   ensures membersNonNil(v) && len(v.Members) <= effLimit(v.MaxVersionVectorEntries) ==>
+//@           forall k string :: k in v.Members ==> A(v.VersionVector.m, k) == old(A(v.VersionVector.m, k))
+//@ loop (*ClusterView).recomputeCounts#1
+//@   modifies v.HealthyCount, v.UnhealthyCount
+//@   invariant len(activeNodes) <= seencount()
+//@   invariant forall k string :: (seen(k) && v.Members[k] != nil) ==> inSlice(activeNodes, k)
+//@   invariant forall k string :: seen(k) ==> k in v.Members
+
+// well-formed view = reachable through the API (joins, restarts, status changes, merges): stored states are
+// non-nil, filed under their own id, carry a logical clock, and the version vector mentions members only
+//@ pure wfMembers(v *ClusterView) bool =
+//@     forall id string :: id in v.Members ==> v.Members[id] != nil && v.Members[id].ID == id && v.Members[id].LogicalClock != 0
+//@ pure vvMembersOnly(v *ClusterView) bool = forall k string :: k in v.VersionVector.m ==> k in v.Members
+//@ pure wfView(v *ClusterView) bool = wfMembers(v) && vvMembersOnly(v)
+//@ pure disjointViews(v *ClusterView, o *ClusterView) bool =
+//@     forall a string, b string :: a in v.Members && b in o.Members ==> v.Members[a] != o.Members[b]
+
+//@ func (*ClusterView).MergeFromWithOptions
+//@   requires wfView(v)
+//@   requires other != nil ==> wfView(other) && other != v && other.Members != v.Members && disjointViews(v, other) &&
+//@            len(v.Members) + len(other.Members) <= effLimit(v.MaxVersionVectorEntries)
+//@   modifies v.Members, v.Members[*], v.HealthyCount, v.UnhealthyCount, v.QuorumSize, v.VersionVector, v.Epoch, v.Timestamp, v.ProtocolVersion
+//@   ensures  wfView(v)
+//@   ensures  forall id string :: old(id in v.Members) ==> id in v.Members
+//@   ensures  other != nil ==> forall id string :: id in other.Members ==> id in v.Members
+//@   ensures  forall id string :: id in v.Members ==> (old(id in v.Members) || (other != nil && id in other.Members))
+//@   ensures  forall id string :: old(id in v.Members) ==> (v.Members[id] == old(v.Members[id]) || lexgt(v.Members[id], old(v.Members[id])))
+//@   ensures  other != nil ==> forall id string :: id in other.Members ==> !lexgt(other.Members[id], v.Members[id])
+//@   ensures  forall id string :: id in v.Members ==>
+//@            ((old(id in v.Members) && v.Members[id] == old(v.Members[id])) || (other != nil && id in other.Members && samekey(v.Members[id], other.Members[id])))
+//@   ensures  v.Epoch >= old(v.Epoch) && v.Timestamp >= old(v.Timestamp) && v.ProtocolVersion >= old(v.ProtocolVersion)
+//@   ensures  (v.Members == old(v.Members) || fresh(v.Members)) && len(v.Members) <= old(len(v.Members)) + (other != nil ? len(other.Members) : 0)
+//@   ensures  forall k string :: A(v.VersionVector.m, k) >= old(A(v.VersionVector.m, k))
+//@   ensures  forall id string :: id in v.Members ==> ((old(id in v.Members) && v.Members[id] == old(v.Members[id])) || fresh(v.Members[id]))
+//@   ensures  other != nil ==> disjointViews(v, other)
+//@   ensures  !changed ==> (forall id string :: (id in v.Members <==> old(id in v.Members)) && v.Members[id] == old(v.Members[id])) &&
+//@            (forall k string :: A(v.VersionVector.m, k) == old(A(v.VersionVector.m, k))) &&
+//@            v.Epoch == old(v.Epoch) && v.Timestamp == old(v.Timestamp) && v.ProtocolVersion == old(v.ProtocolVersion)
+//@ loop (*ClusterView).MergeFromWithOptions#1
+//@   modifies v.Members[*]
+//@   invariant v.Members != nil && other != nil
+//@   invariant len(v.Members) <= old(len(v.Members)) + seencount()
+//@   invariant forall id string :: seen(id) ==> id in other.Members
+//@   invariant forall id string :: !seen(id) ==> ((id in v.Members <==> old(id in v.Members)) && v.Members[id] == old(v.Members[id]))
+//@   invariant forall id string :: seen(id) ==> id in v.Members && v.Members[id] != nil && v.Members[id].ID == id && v.Members[id].LogicalClock != 0
+//@   invariant forall id string :: seen(id) && v.Members[id] == old(v.Members[id]) ==> old(id in v.Members) && !lexgt(other.Members[id], v.Members[id])
+//@   invariant forall id string :: seen(id) && v.Members[id] != old(v.Members[id]) ==> !allocated_old(v.Members[id])
+//@   invariant forall id string :: seen(id) && v.Members[id] != old(v.Members[id]) ==> samekey(v.Members[id], other.Members[id])
+//@   invariant forall id string :: seen(id) && v.Members[id] != old(v.Members[id]) && old(id in v.Members) ==> lexgt(other.Members[id], old(v.Members[id]))
+//@   invariant !changed ==> forall id string :: (id in v.Members <==> old(id in v.Members)) && v.Members[id] == old(v.Members[id])
+
+//@ func (*ClusterView).MergeFrom
+//@   requires wfView(v)
+//@   requires other != nil ==> wfView(other) && other != v && other.Members != v.Members && disjointViews(v, other) &&
+//@            len(v.Members) + len(other.Members) <= effLimit(v.MaxVersionVectorEntries)
+//@   modifies v.Members, v.Members[*], v.HealthyCount, v.UnhealthyCount, v.QuorumSize, v.VersionVector, v.Epoch, v.Timestamp, v.ProtocolVersion
+//@   ensures  wfView(v)
+//@   ensures  forall id string :: old(id in v.Members) ==> id in v.Members
+//@   ensures  other != nil ==> forall id string :: id in other.Members ==> id in v.Members
+//@   ensures  forall id string :: id in v.Members ==> (old(id in v.Members) || (other != nil && id in other.Members))
+//@   ensures  forall id string :: old(id in v.Members) ==> (v.Members[id] == old(v.Members[id]) || lexgt(v.Members[id], old(v.Members[id])))
+//@   ensures  other != nil ==> forall id string :: id in other.Members ==> !lexgt(other.Members[id], v.Members[id])
+//@   ensures  forall id string :: id in v.Members ==>
+//@            ((old(id in v.Members) && v.Members[id] == old(v.Members[id])) || (other != nil && id in other.Members && samekey(v.Members[id], other.Members[id])))
+//@   ensures  v.Epoch >= old(v.Epoch)
+//@   ensures  (v.Members == old(v.Members) || fresh(v.Members)) && len(v.Members) <= old(len(v.Members)) + (other != nil ? len(other.Members) : 0)
+//@   ensures  forall k string :: A(v.VersionVector.m, k) >= old(A(v.VersionVector.m, k))
+//@   ensures  forall id string :: id in v.Members ==> ((old(id in v.Members) && v.Members[id] == old(v.Members[id])) || fresh(v.Members[id]))
+//@   ensures  other != nil ==> disjointViews(v, other)
+
+//@ func (*ClusterView).Snapshot
+//@   nilreceiver
+//@   requires v != nil ==> wfView(v)
+//@   ensures  v == nil ==> result == nil
+//@   ensures  v != nil ==> result != nil && fresh(result) && result.Members != nil && fresh(result.Members) && wfView(result)
+//@   ensures  v != nil ==> forall id string :: (id in result.Members <==> id in v.Members)
+//@   ensures  v != nil ==> forall id string :: id in v.Members ==> fresh(result.Members[id]) && samekey(result.Members[id], v.Members[id])
+//@   ensures  v != nil ==> result.Epoch == v.Epoch && result.MaxVersionVectorEntries == v.MaxVersionVectorEntries && len(result.Members) == len(v.Members)
+//@   ensures  v != nil ==> forall k string :: A(result.VersionVector.m, k) == A(v.VersionVector.m, k)
+//@ loop (*ClusterView).Snapshot#1
+//@   invariant members != nil && allocated(members) && !allocated_old(members) && len(members) == seencount()
+//@   invariant forall id string :: (id in members <==> seen(id)) && (seen(id) ==> id in v.Members)
+//@   invariant forall id string :: seen(id) ==> members[id] != nil && !allocated_old(members[id]) && samekey(members[id], v.Members[id]) &&
+//@             members[id].ID == id && members[id].LogicalClock != 0
+
+// ---------------------------------------------------------------------------------------------
+// order-insensitivity of the membership produced by merges (C17), over the REAL MergeFrom / Snapshot
+// ---------------------------------------------------------------------------------------------
+
+//@ pure sameMembership(x *ClusterView, y *ClusterView) bool =
+//@     forall id string :: (id in x.Members <==> id in y.Members) && (id in x.Members ==> samekey(x.Members[id], y.Members[id]))
+
+//@ func lemmaViewMergeIdempotent
+//@   requires a != nil && b != nil && a != b && a.Members != b.Members && wfView(a) && wfView(b) && disjointViews(a, b)
+//@   requires len(a.Members) + 2 * len(b.Members) <= effLimit(a.MaxVersionVectorEntries)
+//@   modifies a.Members, a.Members[*], a.HealthyCount, a.UnhealthyCount, a.QuorumSize, a.VersionVector, a.Epoch, a.Timestamp, a.ProtocolVersion
+//@   ensures  sameMembership(a, result)
+func lemmaViewMergeIdempotent(a, b *ClusterView) (once *ClusterView) {
+	a.MergeFrom(b)
+	once = a.Snapshot()
+	a.MergeFrom(b)
+	return once
+}
+
+//@ func lemmaViewMergeCommutative
+//@   requires a != nil && b != nil && a != b && a.Members != b.Members && wfView(a) && wfView(b) && disjointViews(a, b)
+//@   requires len(a.Members) + len(b.Members) <= effLimit(a.MaxVersionVectorEntries) && len(a.Members) + len(b.Members) <= effLimit(b.MaxVersionVectorEntries)
+//@   ensures  sameMembership(ab, ba)
+func lemmaViewMergeCommutative(a, b *ClusterView) (ab, ba *ClusterView) {
+	ab = a.Snapshot()
+	ab.MergeFrom(b)
+	ba = b.Snapshot()
+	ba.MergeFrom(a)
+	return ab, ba
+}
+
+//@ func lemmaViewMergeAssociative
+//@   requires a != nil && b != nil && c != nil && a != b && a != c && b != c && a.Members != b.Members && a.Members != c.Members && b.Members != c.Members
+//@   requires wfView(a) && wfView(b) && wfView(c) && disjointViews(a, b) && disjointViews(a, c) && disjointViews(b, c)
+//@   requires len(a.Members) + len(b.Members) + len(c.Members) <= effLimit(a.MaxVersionVectorEntries)
+//@   requires len(a.Members) + len(b.Members) + len(c.Members) <= effLimit(b.MaxVersionVectorEntries)
+//@   ensures  sameMembership(left, right)
+func lemmaViewMergeAssociative(a, b, c *ClusterView) (left, right *ClusterView) {
+	left = a.Snapshot()
+	left.MergeFrom(b)
+	left.MergeFrom(c)
+	bc := b.Snapshot()
+	bc.MergeFrom(c)
+	right = a.Snapshot()
+	right.MergeFrom(bc)
+	return left, right
+}
+
+// the mutators of the API keep views well-formed (the property's quantifier: "views reachable by joins,
+// restarts, status changes and merges")
+//@ func (*ClusterView).AddMember
+//@   requires wfView(v) && (member != nil ==> member.LogicalClock != 0 && len(v.Members) + 1 <= effLimit(v.MaxVersionVectorEntries))
+//@   modifies v.Members, v.Members[*], v.HealthyCount, v.UnhealthyCount, v.QuorumSize, v.VersionVector
+//@   ensures  wfView(v)
+//@   ensures  forall id string :: old(id in v.Members) ==> id in v.Members && (v.Members[id] == old(v.Members[id]) || lexgt(v.Members[id], old(v.Members[id])))
+//@   ensures  member != nil ==> member.ID in v.Members && !lexgt(member, v.Members[member.ID])
+
+//@ func (*ClusterView).IncrementVersion
+//@   requires wfView(v) && (localNodeID != "" ==> localNodeID in v.Members)
+//@   modifies v.VersionVector
+//@   ensures  wfView(v)
+//@   ensures  forall k string :: A(v.VersionVector.m, k) >= old(A(v.VersionVector.m, k))
